@@ -372,7 +372,8 @@ def stepCompact (s : State) (c : Compaction) : Option State :=
   else none
 
 /-- trivial move of file `num` from `lvl` to `lvl + 1`: allowed when nothing in `lvl + 1` overlaps
-it (and, at level 0, no other level-0 file overlaps it) -/
+it and, at level 0, no other level-0 file overlaps it; at a level ≥ 1, no file AFTER it starts with
+the user key it ends with (that file would hold older versions of the key and stay above) -/
 def stepTrivialMove (s : State) (num lvl : Nat) : Option State :=
   match pick (s.levels.getD lvl []) [num] with
   | [f] =>
@@ -380,7 +381,7 @@ def stepTrivialMove (s : State) (num lvl : Nat) : Option State :=
     let ok : Bool := decide (lvl + 1 < 7) &&
       ((s.levels.getD (lvl + 1) []).all fun g => !userRangeOverlaps g f.smallest.1 f.largest.1) &&
       (lvl != 0 || others.all fun g => !userRangeOverlaps g f.smallest.1 f.largest.1) &&
-      (lvl == 0 || others.all fun g => !(g.smallest.1 == f.largest.1))
+      (lvl == 0 || others.all fun g => !(kLt f.largest g.smallest && g.smallest.1 == f.largest.1))
     if ok then some { s with levels := addToLevel (removeNums s.levels lvl [num]) (lvl + 1) f } else none
   | _ => none
 
